@@ -140,6 +140,12 @@ pub struct DeviceSpec {
     pub link_delay: u32,
     /// Index of the upstream neighbour in the device list (None for the first device)
     pub parent: Option<usize>,
+    /// Report these link bits (DL status bits 4..7 = ports 0..3) instead of the real wiring
+    #[serde(default)]
+    pub dl_links_override: Option<u8>,
+    /// Report these port receive times instead of the real ones
+    #[serde(default)]
+    pub port_times_override: Option<[u32; 4]>,
 }
 
 #[derive(Serialize, Deserialize, Clone, Debug, PartialEq, Eq, Hash)]
@@ -312,7 +318,12 @@ impl Device {
         let mut dl: u16 = 0x0001;
 
         for p in 0..4 {
-            if spec.ports[p] {
+            let open = match spec.dl_links_override {
+                Some(bits) => bits & (1 << p) != 0,
+                None => spec.ports[p],
+            };
+
+            if open {
                 dl |= 1 << (4 + p);
                 // communication established
                 dl |= 1 << (9 + 2 * p);
@@ -966,6 +977,10 @@ pub struct NetStats {
     pub tx_log: Vec<Vec<u8>>,
     /// The answer to each logged frame (same index)
     pub rx_log: Vec<Vec<u8>>,
+    /// Global time of the last DC receive time latch (BWR 0x0900)
+    pub dc_latch_at: Option<u64>,
+    /// Station addresses FRMW datagrams were sent to (distinct, in order of first use)
+    pub frmw_targets: Vec<u16>,
     pub malformed: Option<String>,
 }
 
@@ -1165,6 +1180,10 @@ impl Network {
                         adp = adp.wrapping_add(1);
                     }
                     wire::FPRD | wire::FPWR | wire::FPRW | wire::FRMW => {
+                        if dg.code == wire::FRMW && !self.stats.frmw_targets.contains(&adp) {
+                            self.stats.frmw_targets.push(adp);
+                        }
+
                         let alias_on = dev.mem[R_DL_CONTROL + 3] & 1 == 1;
                         let hit = adp == dev.station_addr() || (alias_on && adp == rd16(&dev.mem, R_STATION_ALIAS));
 
@@ -1223,8 +1242,12 @@ impl Network {
                             for p in 0..4 {
                                 let t = arrivals[di][p].map(|t| dev.local_time(t) as u32).unwrap_or(0);
 
+                                let t = dev.spec.port_times_override.map(|o| o[p]).unwrap_or(t);
+
                                 dev.mem[R_DC_PORT0 + 4 * p..R_DC_PORT0 + 4 * p + 4].copy_from_slice(&t.to_le_bytes());
                             }
+
+                            self.stats.dc_latch_at = Some(now);
 
                             let t0 = arrivals[di][0].map(|t| dev.local_time(t)).unwrap_or(0);
 
